@@ -4,7 +4,7 @@ exactly one such position yield an explicit hash collision; deleting a consumed 
 trailing elements never changes the verdict; for transcript-bound positions every later challenge changes or a collision is
 exhibited). The statement "then some check fails" for transcript-bound positions is a random-oracle statement: left to the sweep.
 Tie / search: the sweep below IS the violation search: every scalar position of accepted proofs (fixture + shipped) is replaced
-(+1, 0, P-1 / type max) or its element deleted or swapped with its neighbour; the REAL verifier must not accept; a sample (and every
+(+1, 0, P-1 / type max, and for configuration / public-input scalars +2^32, +2^64, +2^128, +7*2^33) or its element deleted or swapped with its neighbour; the REAL verifier must not accept; a sample (and every
 accepted mutant) also goes through the Lean pipeline model. Appending trailing elements is compared with the model only."""
 import framework as fw
 from framework import P
@@ -19,7 +19,7 @@ BUILDS = {'quick': [('k160', 'stone5', 'full', 'all_layouts', 'parser')], 'thoro
 RULE = ('bases: in-tree fixture + shipped recursive/dex stone5 proofs (thorough: all six static stone5 proofs). positions: every scalar in the '
         '37-token proof value (config numbers, public-input fields, commitments, oods values, FRI coefficients, nonce, decommitted cells, '
         'authentication nodes, FRI leaves). quick: a seed-dependent stride sample (~700 mutants per base) always including every config / '
-        'public-input scalar; thorough: every position x {+1, 0, max, delete, swap}. Model: every 25th mutant + every accepted one. '
+        'public-input scalar; thorough: every position x {+1, 0, max, one word-size alias, delete, swap}; configuration / public-input scalars also x {+2^32, +2^64, +2^128, +7*2^33} in both tiers. Model: every 25th mutant + every accepted one. '
         'non-trivial = all.')
 ASSUMPTIONS = ['transcript-bound positions are rejected with overwhelming probability only (random-oracle heuristic); a legitimately accepted mutant would be reported',
                'pipeline model covers static layouts (dynamic: real code only)']
@@ -47,6 +47,9 @@ def cases(rng, tier, feats, drv_ok):
                 continue
             cur = PL.get(b.v[i], path); lim = PL.limit(i)
             kinds = [('+1', (cur + 1) % lim), ('=0', 0), ('=max', lim - 1)] if (tier == 'thorough' or small) else [rng.choice([('+1', (cur + 1) % lim), ('=0', 0), ('=max', lim - 1)])]
+            # values congruent to the original modulo a machine-word size: a truncating conversion of a count-like field would alias them
+            alias = [(f'+2^{e}', (cur + (1 << e)) % lim) for e in (32, 64, 128)] + [('+7*2^33', (cur + 7 * (1 << 33)) % lim)]
+            kinds = kinds + (alias if small else [rng.choice(alias)] if tier == 'thorough' else [])
             for kn, val in kinds:
                 if val == cur: continue
                 k += 1
